@@ -17,8 +17,10 @@ RULES = {
     'R4': 'client waits: each receive slice is at most QB_IPC_MAX_WAIT_MS, the retry loop needs is_connected, failed receives and event_recv consult the liveness socket (&c->setup), every disconnected result clears is_connected',
     'R5': 'client shm disconnect closes all three rings through one destructor; the forced destructor is chosen when not connected and the server pid is gone (or unknown); force close unlinks with truncate fallback',
     'R6': 'server shm disconnect: SIGBUS handler installed before any ring close, setjmp test before them, handler restored on every exit',
+    'R7': 'once the transport connect has created the per-client resources the connection is in a state in which the transport disconnect releases them (ACTIVE) before anything else can fail: no path from a successful connect reaches the response send (or any later failure exit) with the state still INACTIVE',
+    'R8': 'the client disconnect refreshes its liveness knowledge (a call that can clear is_connected) before the transport destructor chooses between plain and forced close',
 }
-FLOORS = {'R1': 9, 'R2': 10, 'R3': 6, 'R4': 7, 'R5': 5, 'R6': 3}
+FLOORS = {'R1': 9, 'R2': 10, 'R3': 6, 'R4': 7, 'R5': 5, 'R6': 3, 'R7': 2, 'R8': 2}
 
 POLLNVAL, POLLHUP, POLLIN = 0x20, 0x10, 0x1
 
@@ -30,6 +32,8 @@ def run(ctx):
     r4(ctx)
     r5(ctx)
     r6(ctx)
+    r7(ctx)
+    r8(ctx)
 
 
 def _scenario(f, init, tracked, mark_call, start=None, effect=None):
@@ -459,3 +463,66 @@ def r6(ctx):
     ok, p = f.must_pass(('after', inst[0]) if inst else ('entry',), lambda ev: ev in rest)
     ctx.check('R6', 'sigbus-restored-on-every-exit', bool(rest) and ok, rest[0] if rest else f, 'the previous SIGBUS disposition is restored on every exit',
               'an exit leaves the library\'s SIGBUS handler installed (longjmp into a dead frame later)')
+
+
+def r7(ctx):
+    prog = ctx.prog
+    f = prog.fn('handle_new_connection')
+    con = [ev for ev in f.events('CALL') if ev.callee == 'qb_ipcs_funcs::connect']
+    if len(con) != 1:
+        raise AnalysisBroken('handle_new_connection: transport connect calls = %d' % len(con))
+    con = con[0]
+    rv = None
+    for st in f.events('STORE'):
+        if st.rhs is not None and any(n is con.e or n.get('id') == con.e.get('id') for n in walk(st.rhs)):
+            rv = estr(st.lhs)
+    if rv is None:
+        raise AnalysisBroken('handle_new_connection: the result of the transport connect is not stored')
+    ACTIVE = prog.econst('QB_IPCS_CONNECTION_ACTIVE')
+    act = [ev for ev in f.stores(field='state', rec='qb_ipcs_connection') if cval(unwrap(ev.rhs)) == ACTIVE]
+    if not act:
+        raise AnalysisBroken('handle_new_connection: no ACTIVE store')
+    # things that can fail (and send the function down a failure exit) after the resources exist
+    fallible = [ev for ev in f.events('CALL') if ev.callee in ('qb_ipc_us_send', 'qb_ipcs_connection_unref', 'qb_ipcs_disconnect') and f.may_follow(con, ev)]
+    if not fallible:
+        raise AnalysisBroken('handle_new_connection: nothing follows the transport connect')
+
+    def failed_connect(fb, t, lab):
+        # edges that say "the connect failed" are not part of the question
+        if fb.cond is None or lab not in (True, False):
+            return True
+        return not any(a.ls == rv and ((a.op == '!=' and a.rc == 0) or (a.op == '<' and a.rc == 0)) for a in atoms_of(fb.cond, lab))
+    hits, _e, _n = f.search(('after', con), goal=lambda ev: any(ev.d is x.d for x in fallible), stop=lambda ev: any(ev.d is a.d for a in act),
+                            edge_filter=failed_connect)
+    ctx.check('R7', 'ACTIVE-before-anything-can-fail', not hits, hits[0][0] if hits else act[0],
+              'after a successful transport connect the connection is marked ACTIVE before the response is sent or the connection is dropped',
+              'a path from a successful transport connect reaches %s with the state still INACTIVE: if that step fails, the transport disconnect releases nothing (rings, files, directory and sockets of the dead client stay behind)' % (
+                  hits[0][0].callee if hits else ''))
+    # and the list insertion goes with it (the service teardown walks the list)
+    adds = [ev for ev in f.calls('qb_list_add') if field_is(ev.args[1], 'connections')]
+    ok = bool(adds) and all(any(f.ev_dominates(a, x) or f.ev_dominates(x, a) for a in act) for x in adds) and \
+        not f.search(('after', con), goal=lambda ev: any(ev.d is x.d for x in fallible), stop=lambda ev: any(ev.d is a.d for a in adds), edge_filter=failed_connect)[0]
+    ctx.check('R7', 'listed-before-anything-can-fail', ok, adds[0] if adds else f, 'the connection is on the service list before the response is sent',
+              'a successfully connected client is not on the service list when the next step can fail: service teardown / rate limiting never sees it')
+
+
+def r8(ctx):
+    prog = ctx.prog
+    f = prog.fn('qb_ipcc_disconnect')
+    dis = [ev for ev in f.events('CALL') if ev.callee == 'qb_ipcc_funcs::disconnect']
+    if len(dis) != 1:
+        raise AnalysisBroken('qb_ipcc_disconnect: transport disconnect calls = %d' % len(dis))
+    # functions that can clear is_connected
+    clear = {g.name for (g, ev) in prog.writers('is_connected', 'qb_ipcc_connection') if cval(unwrap(ev.rhs)) == 0}
+    if not clear:
+        raise AnalysisBroken('no function clears is_connected')
+    refresh = [ev for ev in f.events('CALL') if ev.callee in clear]
+    ok = bool(refresh) and any(f.ev_dominates(r, dis[0]) for r in refresh)
+    ctx.check('R8', 'liveness-refreshed-before-destructor', ok, dis[0],
+              'qb_ipcc_disconnect calls %s (which clears is_connected for a dead server) before the transport disconnect' % sorted({r.callee for r in refresh}),
+              'qb_ipcc_disconnect goes straight to the transport disconnect: a client that was idle when the server died still believes it is connected, '
+              'takes the plain close and leaves the dead server\'s shared-memory files behind')
+    # the transport destructor does read that flag (otherwise R8 is moot and R5 has to be re-confirmed)
+    sd = prog.fn('qb_ipcc_shm_disconnect')
+    reads = [ev for ev in ctx.inl(sd, 2).events('LOAD') if last_field(ev.e) == ('qb_ipcc_connection', 'is_connected')]
+    ctx.check('R8', 'destructor-reads-is_connected', bool(reads), sd, 'the shm client destructor chooses by is_connected', 'the shm client destructor no longer looks at is_connected (re-confirm R5/R8)')
